@@ -39,10 +39,21 @@ func depOK(s *Ref, t, life string) bool {
 	return life == "scoped" || e.r.life != "scoped"
 }
 
+// leafCtor picks a dependency-free constructor of type t: a top-level function or, for K0 / K1,
+// half of the time one of three closures of ONE function literal (same code pointer, same type;
+// "Remove, then register the other closure of the factory" must run the other closure).
+func (g *gen) leafCtor(t string) string {
+	sfx := "abc"[g.rng.Intn(3)]
+	if (t == "K0" || t == "K1") && g.rng.Intn(2) == 0 {
+		return fmt.Sprintf("Clo_%s_%c", t, sfx)
+	}
+	return fmt.Sprintf("Leaf_%s_%c", t, sfx)
+}
+
 // singleCtor picks a constructor of K_i whose dependencies keep the state buildable.
 func (g *gen) singleCtor(s *Ref, i int, life string) string {
 	if g.rng.Intn(3) == 0 {
-		return fmt.Sprintf("Leaf_K%d_%c", i, "abc"[g.rng.Intn(3)])
+		return g.leafCtor(kTypes[i])
 	}
 	mask := 0
 	for j := 0; j < i; j++ {
@@ -123,7 +134,7 @@ func (g *gen) genDuplicate(s *Ref) *Op {
 	}
 	id := ids[g.rng.Intn(len(ids))]
 	o := &Op{Kind: "add", Life: g.pick(lives), Name: id.Key}
-	o.Ctor = fmt.Sprintf("Leaf_%s_%c", id.T, "abc"[g.rng.Intn(3)])
+	o.Ctor = g.leafCtor(id.T)
 	return o
 }
 
